@@ -36,7 +36,7 @@ void check_C17(Src &s, Ctx &ctx) {
     std::string wd = cfg().workdir, casef = wd + "/c17.case", ck = wd + "/c17ckpt", log = wd + "/c17.log", fin = wd + "/c17.final";
     { std::ofstream f(casef, std::ios::binary); f.write((const char *)s.p + s.i, (std::streamsize)(s.n - s.i)); }
     // the same decoding as the driver (engine/c17/c17config.hpp)
-    bool big = cfg().tier == 1 && s.n > 0 && (s.p[s.n - 1] % 12) == 5;   // thorough tier: one case in twelve grows beyond 1000 loaded points
+    bool big = cfg().tier == 1 && s.n > 1 && ((unsigned)s.p[s.n - 1] + 256u * (unsigned)s.p[s.n - 2]) % 300u == 5u;   // thorough tier: about one case in three hundred grows beyond 1000 loaded points
     if (big) setenv("VERIF_C17_BIG", "1", 1); else unsetenv("VERIF_C17_BIG");
     GridState st; C17Config cf = c17_decode(s, st, big); size_t budget = cf.budget; bool parallel = cf.parallel;
     if (big) ctx.label("big-construction");
@@ -94,7 +94,7 @@ void check_C17(Src &s, Ctx &ctx) {
     { GridState fs; fs.spec = st.spec; fs.vm = st.vm; fs.g = std::move(fg); auto pts = fs.g.getLoadedPoints(); fs.record(pts, fs.values_for(pts));
       const double *v = fs.g.getLoadedValues(); int d = st.spec.dims, outs = st.spec.outs;
       for (size_t i = 0; i < pts.size() / (size_t)d; i++) for (int o = 0; o < outs; o++) { double e = st.vm(&pts[i * (size_t)d], d, o, 0); VF_REQUIRE("C17.corrupt-value", std::memcmp(&e, &v[i * (size_t)outs + (size_t)o], sizeof e) == 0, "loaded value at point #" << i << " output " << o << " is " << decd(v[i * (size_t)outs + (size_t)o]) << ", the model gives " << decd(e)); }
-      bool complete = st.spec.family != F_LOCALP || parent_complete(fs);
+      bool complete = st.spec.family != F_LOCALP || parent_complete(fs) || dag_closed(fs);
       check_nodal(ctx, "C17.final-surrogate", fs, st.spec.family == F_WAVE ? 1e-8 : 1e-9, complete); }
     cleanup();
     bool inside_write = killed_op.find("write(torn)") != std::string::npos;
